@@ -1017,6 +1017,7 @@ def load_corpus():
         f.feats = set(["corpus"])
         f.corpus = True
         f.note = e.get("note", "")
+        f.fixed_vectors = e.get("vectors", [])
         out.append(f)
     return out
 
@@ -1040,6 +1041,11 @@ def gen_vectors(f, rng, k):
     vecs = []
     pools = [INPUTS[t] for (_, t) in f.params]
     gpools = [INPUTS[t] for (_, t) in GLOBALS]
+    for fv in getattr(f, "fixed_vectors", []):
+        if isinstance(fv, dict):
+            vecs.append((list(fv["globals"]), list(fv["args"])))
+        else:
+            vecs.append(([p[0] for p in gpools], list(fv)))
     # all-first (nil/zero), all-second, then random
     for j in range(k):
         if j == 0:
@@ -1348,3 +1354,312 @@ def oracle(mod, res):
                 break
     stats["classification_histogram"] = hist
     return viols, stats
+
+
+# =========================================================================== the check
+MODULES = ["Verif.C15.Theorems"]
+THEOREMS = [
+    "Verif.C15.merge_sound",
+    "Verif.C15.le_sound",
+    "Verif.C15.normalize_sound",
+    "Verif.C15.transfer_sound",
+    "Verif.C15.phis_sound",
+    "Verif.C15.edge_sound",
+    "Verif.C15.path_sound",
+    "Verif.C15.result_sound",
+    "Verif.C15.result_sound_never",
+    "Verif.C15.result_sound_always",
+    "Verif.C15.sa4023_sound",
+    "Verif.C15.checkPost_sound",
+]
+
+
+def func_record(f):
+    return {"name": f.name, "pkg": f.pkg, "params": [list(p) for p in f.params], "results": list(f.results),
+            "named": f.named, "method": f.method, "text": f.text, "callees": sorted(f.callees)}
+
+
+def func_from_record(e):
+    f = Func(e["name"], e["pkg"], [tuple(x) for x in e["params"]], e["results"], e.get("named", False), e.get("method", False))
+    f.text = e["text"]
+    f.callees = set(e.get("callees", []))
+    f.feats = set(["replay"])
+    f.fixed_vectors = e.get("vectors", [])
+    return f
+
+
+def plan(ctx):
+    """[(module tag, generator seed, number of generated functions, with corpus, vectors per function)]"""
+    if ctx.quick:
+        return [("m0", ctx.seed * 1000 + 0, 130, True, 12), ("m1", ctx.seed * 1000 + 1, 150, False, 12),
+                ("m2", ctx.seed * 1000 + 2, 150, False, 12)]
+    return [("m%d" % k, ctx.seed * 1000 + k, 260, k == 0, 16) for k in range(14)]
+
+
+def run_plan(ctx, probe, staticcheck, items, workers):
+    from concurrent.futures import ThreadPoolExecutor
+
+    def one(item):
+        tag, mod = item
+        root = ctx.path("mods", tag, "go.mod")
+        root = os.path.dirname(root)
+        return tag, mod, run_module(ctx, mod, root, probe, staticcheck, tag)
+
+    with ThreadPoolExecutor(max_workers=workers) as ex:
+        return list(ex.map(one, items))
+
+
+def le_n(a, b):
+    """a below-or-equal b in the order of nilness.lattice.Merge (merge(a,b) == b)"""
+    return MERGE[a][b] == b
+
+
+MERGE = [[0, 1, 2, 3, 4], [1, 1, 4, 3, 4], [2, 4, 2, 4, 4], [3, 3, 4, 3, 4], [4, 4, 4, 4, 4]]
+
+
+def model_tie(ctx, mod, res, tag):
+    """tie X: the compiled Lean model recomputes every dumped function's ValueNilness from the
+    probe's IR dump; soundness transfers from the model (result_sound) to the real analysis iff
+    the real classification is equal to or coarser than the model's (lattice order)."""
+    lines = [l[2:] for l in res["dumps"]]
+    outs = vlib.run_model(ctx, "C15", lines)
+    stats = {"functions": 0, "modelled": 0, "exact": 0, "coarser": 0, "unmodelled": {}, "certified_postfixpoints": 0}
+    diffs = []
+    for line, out in zip(lines, outs):
+        if out.startswith("bad-op") or out.startswith("bad"):
+            raise vlib.HarnessError("c15driver rejected a dump (%s): %s ... -> %s" % (tag, line[:300], out[:300]))
+        pkg = line.split(" | ", 1)[0].rsplit("/", 1)[-1]
+        for rec in out.split(" | ")[1:]:
+            t = rec.split(" ")
+            # F <name> <status> real=<io,io..> model=<io,io..> cert=<0|1>
+            name, status = t[1], t[2]
+            kv = dict(x.split("=", 1) for x in t[3:])
+            stats["functions"] += 1
+            if status != "ok":
+                stats["unmodelled"][status] = stats["unmodelled"].get(status, 0) + 1
+                continue
+            stats["modelled"] += 1
+            if kv.get("cert") == "1":
+                stats["certified_postfixpoints"] += 1
+            real = [(int(x[0]), int(x[1])) for x in kv["real"].split(",") if x]
+            model = [(int(x[0]), int(x[1])) for x in kv["model"].split(",") if x]
+            if real == model and kv.get("cert") == "1":
+                stats["exact"] += 1
+                continue
+            ok = len(real) == len(model) and kv.get("cert") == "1" and \
+                all(le_n(m[0], r[0]) and le_n(m[1], r[1]) for m, r in zip(model, real))
+            if ok:
+                stats["coarser"] += 1
+            else:
+                diffs.append({"module": tag, "func": pkg + "." + name, "real": kv["real"], "model": kv["model"],
+                              "cert": kv.get("cert"), "encoding": "per result: <Inner><Outer>, 1=NeverNil 2=AlwaysNil 3=MaybeNilGlobal 4=MaybeNil"})
+    return stats, diffs
+
+
+def viol_class(v):
+    return "%s:%s" % (v["kind"], v["what"])
+
+
+def replay_obj(mod, v, extra=None):
+    fq = v["func"]
+    funcs = mod.closure([fq])
+    recs = [func_record(f) for f in funcs]
+    vecs = mod.vectors[fq]
+    gl, args = vecs[v["vector"]]
+    for r in recs:
+        if r["pkg"] + "." + (("T." if r["method"] else "") + r["name"]) == fq:
+            r["vectors"] = [{"globals": gl, "args": args}]
+    o = {"property": "C15", "violation": v, "functions": recs,
+         "how_to_replay": "./check C15 --replay <this file>   (rebuilds a module from `functions`: package a = prelude of "
+                          "checks/c15.py + the functions with pkg a, package b likewise; runs the real nilness analysis "
+                          "(harness/cmd/c15probe, staticcheck -checks SA4023) and the compiled program on `vectors`). By hand: "
+                          "put the function text into a package that has the prelude types, run `staticcheck -debug.print-facts`"
+                          " or the probe, and call the function with the listed arguments / globals."}
+    if extra:
+        o.update(extra)
+    return o
+
+
+def report_violations(ctx, mod, tag, viols, known, seen_classes, prefix=""):
+    n = 0
+    for v in viols:
+        if v.get("viewer_pkg") and v["viewer_pkg"] != v["func"].split(".")[0]:
+            # the same classification seen through the imported fact: reported once, from the defining package,
+            # unless only the importer sees it
+            if any(w is not v and w["func"] == v["func"] and w.get("result") == v.get("result") and
+                   w.get("viewer_pkg") == v["func"].split(".")[0] for w in viols):
+                continue
+        key = None
+        for k in known:
+            if k.startswith("func=") and k[5:] == v["func"] and mod.by_q[v["func"]].corpus:
+                key = k
+        if key:
+            ctx.known_finding("key=%s %s" % (key, known[key]))
+            continue
+        n += 1
+        name = "%s%s_%s_%s_r%s.json" % (prefix, tag, v["kind"], v["func"].replace(".", "_"), v.get("result"))
+        cls = viol_class(v)
+        first = cls not in seen_classes
+        seen_classes.setdefault(cls, 0)
+        seen_classes[cls] += 1
+        if seen_classes[cls] > 6:
+            continue  # at most 6 replay files per violation class
+        ctx.violation(name, replay_obj(mod, v),
+                      text="C15: %s: %s result %s (%s) classified %s, observed %s with args %s" % (
+                          v["what"], v["func"], v.get("result"), v.get("type", ""), v.get("classification", v.get("message")),
+                          v.get("observed", v.get("observed_comparison_value")), v.get("args")) if first or True else "")
+    return n
+
+
+def targeted_search(ctx, probe, staticcheck, mods, diffs):
+    """violation search: the functions on which the real analysis claims more than the proved model
+    are re-run on many more input vectors."""
+    items = []
+    for tag, mod in mods.items():
+        fqs = sorted(set(d["func"].replace("T.", "T.") for d in diffs if d["module"] == tag))
+        fqs = [q for q in fqs if q in mod.by_q][:40]
+        if not fqs:
+            continue
+        funcs = mod.closure(fqs)
+        m2 = Module(funcs, ctx.seed + 77, 120)
+        items.append((tag + "s", m2))
+    found = []
+    for tag, m2, res in run_plan(ctx, probe, staticcheck, items, 3):
+        v, _ = oracle(m2, res)
+        found.append((tag, m2, v))
+    return found
+
+
+def run(ctx):
+    lean_ok, lean_broke = vlib.std_lean_phase(ctx, MODULES, THEOREMS)
+    probe = vlib.build_harness(ctx, "c15probe")
+    staticcheck = vlib.build_repo_cmd(ctx, "./cmd/staticcheck")
+    known = vlib.load_known_findings("C15")
+
+    items = []
+    if ctx.replay:
+        rp = json.load(open(ctx.replay))
+        funcs = [func_from_record(e) for e in rp["functions"]]
+        items.append(("replay", Module(funcs, ctx.seed, 4)))
+    else:
+        for (tag, gseed, count, with_corpus, nvec) in plan(ctx):
+            funcs = gen_functions(gseed, count, with_corpus=with_corpus)
+            items.append((tag, Module(funcs, gseed, nvec)))
+    results = run_plan(ctx, probe, staticcheck, items, 3 if ctx.quick else 5)
+
+    mods = {}
+    seen_classes = {}
+    nviol = 0
+    tot = {}
+    feats = {}
+    tie = {"functions": 0, "modelled": 0, "exact": 0, "coarser": 0, "unmodelled": {}, "certified_postfixpoints": 0}
+    diffs = []
+    sa_mismatch = []
+    cross_pkg_mismatch = []
+    nontrivial = set()
+    samples = []
+    nfuncs = 0
+    for tag, mod, res in results:
+        mods[tag] = mod
+        viols, st = oracle(mod, res)
+        nviol += report_violations(ctx, mod, tag, viols, known, seen_classes)
+        for k, v in st.items():
+            if isinstance(v, dict):
+                d = tot.setdefault(k, {})
+                for kk, vv in v.items():
+                    d[kk] = d.get(kk, 0) + vv
+            else:
+                tot[k] = tot.get(k, 0) + v
+        if res["sa"] != res["probe_sa"]:
+            sa_mismatch.append({"module": tag, "only_staticcheck": sorted(map(str, set(res["sa"]) - set(res["probe_sa"])))[:5],
+                                "only_probe": sorted(map(str, set(res["probe_sa"]) - set(res["sa"])))[:5]})
+        # the fact a dependent package imports must be the fact the defining package exported
+        for (viewer, fq, idx), cls in res["facts"].items():
+            own = res["facts"].get((fq.split(".")[0], fq, idx))
+            if own is not None and own != cls:
+                cross_pkg_mismatch.append({"module": tag, "func": fq, "result": idx, "in_own_pkg": own, "seen_from_" + viewer: cls})
+        for f in mod.funcs:
+            nfuncs += 1
+            for ft in f.feats:
+                feats[ft] = feats.get(ft, 0) + 1
+            runs = res["runs"].get(f.qname, {})
+            normal = [i for i, r in runs.items() if r is not None]
+            definite = False
+            for idx, t in enumerate(f.results):
+                cls = res["facts"].get((f.pkg, f.qname, idx))
+                if cls and TYPES[t][1] and (cls[1] in (1, 2) or (TYPES[t][2] and cls[0] in (1, 2))):
+                    definite = True
+            if definite and normal:
+                nontrivial.add(hashlib.sha256(f.text.encode()).hexdigest())
+                if len(samples) < 4:
+                    samples.append({"function": f.text, "classification": {str(i): [NILNESS[c] for c in res["facts"][(f.pkg, f.qname, i)]]
+                                                                         for i in range(len(f.results)) if (f.pkg, f.qname, i) in res["facts"]},
+                                    "observed_first_normal_return": runs[normal[0]], "vector": mod.vectors[f.qname][normal[0]][1]})
+        if lean_ok or os.path.exists(vlib.driver_path("C15")):
+            try:
+                ts, td = model_tie(ctx, mod, res, tag)
+            except vlib.HarnessError:
+                if lean_ok:
+                    raise
+                ts, td = None, []
+            if ts:
+                for k, v in ts.items():
+                    if isinstance(v, dict):
+                        for kk, vv in v.items():
+                            tie[k][kk] = tie[k].get(kk, 0) + vv
+                    else:
+                        tie[k] += v
+                diffs += td
+
+    ctx.coverage.update({
+        "evaluations": tot.get("calls", 0),
+        "distinct_nontrivial": len(nontrivial),
+        "rule": "seeded generator of type-correct Go functions with pointer-like results in two packages (b imports a) + fixed corpus; "
+                "every function is analysed by the real nilness analysis/SA4023 and executed compiled on input vectors. "
+                "evaluations = executed calls; non-trivial = distinct function bodies with a definite classification (NeverNil/AlwaysNil, "
+                "outer or inner) on some result AND at least one normally returning execution",
+        "samples": samples,
+        "programs": nfuncs,
+        "disagreements_checked": len(diffs),
+        "oracle": tot,
+        "generator_features": dict(sorted(feats.items())),
+        "model_tie": tie,
+        "sa4023_probe_vs_binary_mismatches": len(sa_mismatch),
+        "cross_package_fact_mismatches": len(cross_pkg_mismatch),
+    })
+    ctx.assumptions += [
+        "Sem.lean over-approximates Go on the modelled IR subset (no memory model: every load/field/index/receive/dynamic call yields an arbitrary type-correct value; panics have no successor state); this is validated only by the execution oracle",
+        "IR contracts used by the semantics: SSA (a nil-test condition is evaluated at the branch), an Extract k>0 of a TypeSwitch executes only when case k-1 was selected, deferred nil calls panic before a normal return (C02 covers SSA well-formedness)",
+        "functions outside the modelled subset (generics, closures, bound-method wrappers) are covered by the execution oracle only",
+    ]
+
+    # model / proof problems without an oracle failure: targeted violation search, then no-failing-input-found
+    if (diffs or not lean_ok or sa_mismatch or cross_pkg_mismatch) and nviol == 0 and not ctx.replay:
+        found = targeted_search(ctx, probe, staticcheck, mods, diffs) if diffs else []
+        for tag, m2, v in found:
+            nviol += report_violations(ctx, m2, tag, v, known, seen_classes, prefix="search_")
+        if nviol == 0:
+            ctx.violation("correspondence.json", {
+                "what": "the real nilness classification is not covered by the proved model (or a proof no longer checks), "
+                        "but no execution contradicting a classification was found",
+                "real_claims_more_than_model": diffs[:60], "count": len(diffs), "lean": lean_broke,
+                "sa4023_probe_vs_binary": sa_mismatch[:10], "cross_package_fact_mismatches": cross_pkg_mismatch[:10],
+                "correspondence": "C15 stream: per function, Result.Nilness (real) vs. Verif.C15.analyze (model) on the probe's IR dump; "
+                                  "theorems " + ", ".join(THEOREMS),
+                "functions": [func_record(f) for d in diffs[:5] for f in mods[d["module"]].closure([d["func"]])
+                              if d["module"] in mods and d["func"] in mods[d["module"]].by_q],
+            }, nofail=True, text="C15: model/implementation correspondence broken: %d functions, lean_ok=%s" % (len(diffs), lean_ok))
+    elif diffs:
+        ctx.notes.append("%d functions where the real classification is not covered by the model (oracle violations reported separately)" % len(diffs))
+        ctx.coverage["uncovered_examples"] = diffs[:10]
+    return vlib.finish(ctx, "proof" if lean_ok else "translation_validation")
+
+
+META = {
+    "level": "proof",
+    "technique": "Lean 4 soundness proof of a model of the nilness transfer rules against a nondeterministic concrete semantics of the IR subset; "
+                 "executable correspondence (model recomputes the real facts from IR dumps, certified post-fixpoints) + execution oracle on compiled code",
+    "text": "TODO",
+    "note": "TODO",
+    "design_ref": "DESIGN.md section 5, C15",
+}
